@@ -103,7 +103,7 @@ def grid_run(grid, tier, nshards=None):
     return vlib.merge(sharded(binary, tier, nshards or vlib.NCPU, extra=["-grid", grid]))
 
 
-GRIDS = {"C04": "c04", "C05": "c05"}
+GRIDS = {"C04": "c04", "C05": "c05", "C08": "c08"}
 
 
 def enga_check(prop, tier, t0, what):
@@ -124,6 +124,8 @@ def enga_check(prop, tier, t0, what):
     if prop == "C04":
         cov["explanation"] += "; plus the arithmetic grid on the real device: every base note 0-127 x every (octave, semitone) in [-14,14]^2 reached by real action presses x velocities, the full 16x16 channel x offset table on three pitches (thorough: 130 presses of every octave/semitone action)"
         assume.append("grid: octave and semitone within +-14 (thorough: single-parameter walks to +-130)")
+    if prop == "C08":
+        cov["explanation"] += "; plus a transposition walk on the real device: octave, semitone and both together moved by real action presses to +-24 steps (thorough: until the 8-bit counters end), at every step both directions of a hat and of a stick are deflected and returned and compared with the transposition rule and with a real key on the same base note"
     if prop == "C05":
         cov["explanation"] += "; plus corner configurations (default channel, velocity, key/axis offsets, CC numbers at and beyond their limits): the real parser decides, every accepted configuration is driven with all keys, panic on every channel and every raw value of every 8-bit axis"
     return vlib.finish(prop, tier, "model_checking", m, cov, assume, t0)
